@@ -78,6 +78,15 @@ def stepC29 (d : DS) (toks : List String) : DS × String :=
         | _, _ => none) (some []) with
     | some q' => endOf d (q'.filterMap id)
     | none => (d, "bad-op")
+  | ["propose", id, bs, "elip"] =>
+    -- ELIP: `checkNormalOrELIPProposal` first demands exactly two budgets and no normal payment, then the same checks
+    match nat? id, budgets? bs with
+    | some id, some bs =>
+      if bs.length ≠ 2 ∨ bs.any (fun b => b.typ = .normal) then (d, "reject elip") else
+      match check d.P d.s d.acc (.propose id bs) with
+      | some e => (d, "reject " ++ e)
+      | none => ({ d with q := some (.propose id bs) :: d.q, acc := d.acc + total bs, known := id :: d.known }, "accept")
+    | _, _ => (d, "bad-op")
   | ["propose", id, bs] =>
     match nat? id, budgets? bs with
     | some id, some bs =>
